@@ -706,7 +706,14 @@ func historyIndependence(c *ShardCtx) {
 				panic(&core.HarnessError{Msg: err.Error()})
 			}
 			for pos, k := range []int{i, j} {
-				r, err := srv.Call(&matrix[k])
+				rq := matrix[k]
+				// a caller that keeps its option VALUES and passes them to every build: when the second
+				// build has the flags of the first, it gets the very same builder.Option values
+				rq.SameOpts = pos == 1 && flagsDesc2(&matrix[i]) == flagsDesc2(&matrix[j])
+				if rq.SameOpts {
+					c.Res.Counters["builds_with_reused_option_values"]++
+				}
+				r, err := srv.Call(&rq)
 				if err != nil {
 					panic(&core.HarnessError{Msg: err.Error()})
 				}
